@@ -41,7 +41,7 @@ COMPONENTS = {
     "real_also": ["BasicOptimizer (4% of the groups: one object, callbacks registered once, run() called 2-3 times)"],
     "stub": ["recording handler plug-in (two per plan level)", "recording observers", "SimEvaluator", "sim/scripted optimizer"],
 }
-PROBES = ["basic_optimizer_reused", "basic_optimizer_abort_callback_fires", "child_plan", "baseline_runs", "abort_at_event", "abort_in_evaluator", "abort_at_step_start_event", "abort_at_step_finished_event",
+PROBES = ["nested_plan_under_two_plans", "abort_in_second_plan_run", "basic_optimizer_reused", "basic_optimizer_abort_callback_fires", "child_plan", "baseline_runs", "abort_at_event", "abort_in_evaluator", "abort_at_step_start_event", "abort_at_step_finished_event",
           "abort_by_handler", "abort_by_observer", "abort_in_inner_plan", "abort_by_outer_handler_on_inner_event",
           "nested_plan", "multi_step_plan", "unmatched_start_allowed", "further_step_refused", "too_few_in_run", "max_functions_in_run"]
 
@@ -95,9 +95,113 @@ def _group_scenario(gseed: int) -> dict:
     return scn
 
 
+def two_outer_scenario(rng: random.Random, prop: str) -> dict:
+    """A nested plan the user keeps and hands, as nested_optimization, first to a step of one top-level plan and then
+    to a step of a second top-level plan."""
+    nv = rng.randint(2, 3)
+    scn = gen.base_scenario(rng, prop, nv=nv, nr_max=2, no_max=2, nc_max=0, npert_max=2, filters=False,
+                            stddev=False, transforms=False, linear=False, mask=False, inject_p=1.0,
+                            script_len=rng.randint(1, 3), step="optimizer", rms=None, pms=None, zero_real_weights=False)
+    cfg = scn["configs"][0]
+    cfg["optimizer"]["options"]["allow_nan"] = False
+    cfg["optimizer"].pop("max_functions", None)
+    inner = copy.deepcopy(cfg)
+    mask = [i == 0 for i in range(nv)]
+    cfg["variables"]["mask"] = mask
+    inner["variables"]["mask"] = [not m for m in mask]
+    inner["optimizer"]["options"]["script"] = gen.gen_script(rng, len(inner["optimizer"]["options"]["points"]), rng.randint(1, 2), ops=("f", "fg"))
+    scn["configs"].append(inner)
+    for e in cfg["optimizer"]["options"]["script"]:
+        e.pop("batch", None)
+        e["pts"] = e["pts"][:1]
+    scn["faults"] = []
+    scn["plan"] = {"steps": [{"kind": "optimizer", "cfg": 0,
+                              "nested": {"steps": [{"kind": "optimizer", "cfg": 1}], "recorders": ["a", "b"],
+                                         "trackers": [{"what": "best", "tol": None, "sources": [0]}]}}],
+                   "recorders": ["a", "b"], "trackers": [{"what": "best", "sources": [0]}]}
+    scn["second_outer_plan"] = True
+    scn["entry"] = "nested_plan_under_two_plans"
+    scn["second"] = rng.choice(["plain", "abort", "abort", "all-fail"])
+    scn["abort_rank"] = rng.getrandbits(16)
+    scn["shape"] = scn["stratum"] = "nested-plan-kept"
+    return scn
+
+
+def execute_two_outer(scn: dict) -> dict:
+    """Events of the second top-level plan's run (and of the nested plan while it runs under it) reach the handlers of
+    the nested plan, of the second plan and the observers - not those of the first plan, which is not running; an abort
+    in that run latches the nested and the second plan, not the first."""
+    viol: list[dict] = []
+    probes = {"nested_plan_under_two_plans": 1}
+    run = copy.deepcopy(scn)
+    if scn["second"] == "all-fail":
+        run["second_faults"] = [{"kind": "nan", "eval": None, "real": None, "pert": None, "col": None}]
+    ctx = harness.run_scenario(run)
+    abort = None
+    if scn["second"] == "abort":
+        start = getattr(ctx, "second_outer_first_event", len(ctx.events))
+        pts = [(rec.n, r) for rec in ctx.events[start:] if rec.source >= 0 and ctx.step_meta[rec.source]["level"] == 1 for r in rec.deliveries]
+        if pts:
+            n, r = pts[scn["abort_rank"] % len(pts)]
+            abort = {"event": n, "receiver": r}
+            run["second_event_faults"] = [dict(abort)]
+            ctx = harness.run_scenario(run)
+            probes["abort_in_second_plan_run"] = 1
+    start = getattr(ctx, "second_outer_first_event", len(ctx.events))
+    checked = 0
+    for rec in ctx.events:
+        if rec.source < 0:
+            continue
+        level = ctx.step_meta[rec.source]["level"]
+        sfx = "B" if rec.n >= start else ""
+        want = (["h1a", "h1b"] if level == 1 else []) + [f"h0a{sfx}", f"h0b{sfx}"] + ["obs"]
+        got = list(rec.deliveries)
+        checked += 1
+        if abort is not None and rec.n == abort["event"]:
+            cut = want[: want.index(abort["receiver"]) + 1] if abort["receiver"] in want else want
+            if got not in (cut, want):
+                viol.append({"clause": "delivery-at-abort-event", "sig": {"entry": "nested-plan-kept"},
+                             "detail": f"event {rec.n} {rec.type.name}: delivered to {got}, expected {cut}"})
+            continue
+        if got != want:
+            viol.append({"clause": "event-delivery", "sig": {"type": rec.type.name, "entry": "nested-plan-kept"},
+                         "detail": f"event {rec.n} {rec.type.name} (plan level {level}, during the run of the "
+                                   f"{'second' if sfx else 'first'} top-level plan, which was handed the same nested plan object): "
+                                   f"delivered to {got}, expected {want}"})
+    planA, planB = ctx.built["plan"], ctx.built2["plan"]
+    inner = ctx.built["steps"][0]["nested"]["plan"]
+    fired = abort is not None and ctx.fired.get("abort_at_event")
+    if fired:
+        if not planB.aborted or not inner.aborted:
+            viol.append({"clause": "plan-not-marked-aborted", "sig": {"entry": "nested-plan-kept"},
+                         "detail": f"abort {abort} in the run of the second plan: second plan aborted={planB.aborted}, nested plan aborted={inner.aborted}"})
+        if ctx.exits and not (ctx.exits[-1][0] == "ret" and ctx.exits[-1][2] == int(OptimizerExitCode.USER_ABORT)):
+            viol.append({"clause": "abort-not-reported-as-user-abort", "sig": {"entry": "nested-plan-kept"}, "detail": f"exits {ctx.exits}"})
+    if planA.aborted:
+        viol.append({"clause": "plan-aborted-without-abort", "sig": {"entry": "nested-plan-kept"},
+                     "detail": f"the first top-level plan (not running, no abort during its own run) is marked aborted; abort {abort}"})
+    for e in ctx.exits:
+        if e[0] == "exception":
+            viol.append({"clause": "run-raised", "sig": {"entry": "nested-plan-kept"}, "detail": f"{e}"})
+    return {
+        "violations": _dedupe(viol),
+        "nontrivial": checked >= 4 and len(ctx.events) > start,
+        "key": oracles.scenario_key(scn, ("two-outer", scn["second"], None if abort is None else abort["receiver"])),
+        "probes": probes,
+        "fired": {**dict(ctx.evaluator.fired), **dict(ctx.fired)},
+        "digest": harness.trace_digest(ctx),
+        "evals": len(ctx.evaluator.calls),
+        "events": len(ctx.events),
+        "stratum": scn.get("stratum"),
+        "summary": {"exits": oracles.exits_summary(ctx), "second": scn["second"], "abort": abort},
+    }
+
+
 def generate(seed: int, index: int, tier: str) -> dict:
     batch = int(os.environ.get("VERIF_SEED", "0"))
     group = index // GROUP
+    if group % 25 == 12:
+        return two_outer_scenario(random.Random(run_seed(batch, PROP + "-two-outer", index)), PROP)
     if group % 25 == 24:
         # the plan BasicOptimizer builds, run two or three times with one object: every run is a plan run of its own and
         # must deliver each of its events exactly once to the callbacks registered once by the user
@@ -356,6 +460,8 @@ def _execute_basic_twice(scn: dict) -> dict:
 def execute(scn: dict) -> dict:
     if scn.get("entry") == "basic_twice":
         return _execute_basic_twice(scn)
+    if scn.get("entry") == "nested_plan_under_two_plans":
+        return execute_two_outer(scn)
     viol: list[dict] = []
     probes: dict[str, int] = {}
 
